@@ -18,7 +18,8 @@ var badXattrVals = []string{`{bad`, ``}
 var macroPaths = []string{"_sync.cas", "_sync.n.crc", "u1.cas", "_vv.x", "_sync.rev", "u2.n.deep"}
 var subdocPaths = []string{"a", "b.c", "x.y", "a.z", "n", "b", "b.c.d", "q", "new"}
 var subdocVals = []string{`1`, `"v"`, `{"k":true}`, `null`, ``, `[1]`}
-var farExps = []uint32{4000000000, 4000000001, 4100000000}
+var farExps = []uint32{4000000000, 4000000001, 4100000000, 3900000000}
+var pastExps = []uint32{1000000000, 1500000000, 1000000001}
 var relExps = []uint32{1000, 2592000, 50}
 
 func pick[T any](r *rand.Rand, l []T) T { return l[r.Intn(len(l))] }
@@ -27,8 +28,10 @@ func genExp(r *rand.Rand) uint32 {
 	switch x := r.Intn(10); {
 	case x < 5:
 		return 0
-	case x < 8:
+	case x < 7:
 		return pick(r, farExps)
+	case x < 8:
+		return pick(r, pastExps)
 	default:
 		return pick(r, relExps)
 	}
@@ -309,7 +312,7 @@ func genKv(r *rand.Rand, tier string) kvInput {
 			}
 		}
 		switch x := r.Intn(60); {
-		case x == 0:
+		case x == 0 || x == 10:
 			in.Ops = append(in.Ops, Step{Kind: "purge", Handle: r.Intn(in.Handles), Clock: next()})
 		case x == 1 && exists["s1.c2"]:
 			in.Ops = append(in.Ops, Step{Kind: "drop", Coll: "s1.c2", Clock: next()})
@@ -317,8 +320,10 @@ func genKv(r *rand.Rand, tier string) kvInput {
 		case x == 2 && !exists["s1.c2"]:
 			in.Ops = append(in.Ops, Step{Kind: "create", Coll: "s1.c2", Clock: next()})
 			exists["s1.c2"] = true
-		case x == 3:
+		case x == 3 || x == 8:
 			in.Ops = append(in.Ops, Step{Kind: "expire", Clock: next()})
+		case x == 9 && in.OnDisk:
+			in.Ops = append(in.Ops, Step{Kind: "reopen", Clock: next()})
 		case x >= 4 && x <= 7:
 			st := Step{Kind: "dump", Coll: pick(r, live), Key: pick(r, hot), Start: pick(r, []string{"zero", "current", "current", "stale", "bogus"}), Clock: next()}
 			if r.Intn(3) == 0 {
